@@ -20,7 +20,7 @@ class Prop:
             "(remove, remove of an endpoint-less peer, replace_peers, replace+re-add, remove+re-add, private_key new / same / "
             "onto the peer's key / onto a bystander's key / new-and-back, self-peer add, private_key + peer sections incl. the device's own new key in ONE set operation) x 30 probes (TUN to old prefixes, "
             "transport under every session made so far, response to every captured initiation, fresh initiation for old and "
-            "new identity, full new handshakes, old sessions again), plus random plans from one PRNG; thorough adds rounds of "
+            "new identity, full new handshakes, old sessions again), plus 32 near-key plans (replacement private key = current key with byte k changed, k = 0..31; peers whose public key is a one-byte neighbour of the device's current / next public key), plus random plans from one PRNG; thorough adds rounds of "
             "{initiation or TUN packet in flight || remove=true}; non-trivial = at least one revocation that hits a peer "
             "with a session, a pending handshake or staged packets and at least three probes with an effect before or after; "
             "distinct by content hash of plan and observations")
